@@ -130,6 +130,27 @@ def run(ck):
                 break
         ck.case(("sr", N, repr(hist)), nontrivial=overwrites > 0, kind="set_rate", size=N,
                 sample={"set_rate_history": hist[:8], "N": N} if h < 2 else None)
+    # ---- (a') a rate matrix handed over as an array of whole numbers (integer dtype): assigned rates are kept as assigned ------------------
+    for N in (2, 3):
+        for start_ in ("zeros", "whole-number rates"):
+            K0i = numpy.zeros((N, N), dtype=int)
+            if start_ != "zeros":
+                for j in range(N):
+                    for i in range(N):
+                        if i != j:
+                            K0i[i, j] = i + j + 1
+                    K0i[j, j] = -K0i[:, j].sum()
+            inp = {"N": N, "data": "integer array (%s)" % start_, "assignments": [[0, 1, 0.5], [1, 0, 0.125]]}
+            ck.case(("sr-int", N, start_), nontrivial=True, kind="set_rate", size=N)
+            try:
+                rmi = RateMatrix(data=K0i.copy())
+                rmi.set_rate((0, 1), 0.5); rmi.set_rate((1, 0), 0.125)
+                di = numpy.array(rmi.data, dtype=float)
+                if di[0, 1] != 0.5 or di[1, 0] != 0.125 or numpy.abs(di.sum(axis=0)).max() != 0.0:
+                    ck.fail("set_rate:integer-matrix", "a rate matrix given as an integer array does not keep the assigned off-diagonal values / zero column sums",
+                            inp, di.tolist())
+            except Exception as e:
+                ck.fail("raises:set_rate:integer-matrix", "raised %r" % (e,), inp)
     # ---- (b) propagation -------------------------------------------------------------------
     for h in range(ck.n(25, 400)):
         N = rng.randint(2, 5)
